@@ -1026,7 +1026,23 @@ class DFA:
                     owner.after_break_actions.extend(x for x in actions if x not in owner.after_break_actions)
 
     def chain_actions_at_end(self, actions: Iterable["Action"]):
-        self.chain_actions_into(actions, self.accepting_states)
+        actions = list(actions)
+        start = self.starting_state
+        if actions and start in self.accepting_states:
+            # This automaton can match nothing (it consists of an optional): its start state is entered without taking any of
+            # its transitions, so nothing pointing at it can carry the actions. Give the empty path an explicit end that does.
+            end_dfa = DFA()
+            end_start, end_state = DFState(), DFState()
+            end_dfa.add(end_start)
+            end_dfa.add(end_state)
+            end_dfa.mark_accepting(end_state)
+            end_start.transition(DFTransition([DFTransition.Else], fallthrough=True).to(end_state).handles_else())
+            # (the other accepting states keep the usual treatment, including the refusal to schedule timing-strict actions
+            # after something that can still continue)
+            self.chain_actions_into(actions, [x for x in self.accepting_states if x is not start])
+            self.append_after(end_dfa, sub_states=[start], chain_actions=actions)
+        else:
+            self.chain_actions_into(actions, self.accepting_states)
 
 # =============
 # DEBUG STORAGE
@@ -3947,18 +3963,8 @@ class OptionalNode(ActionSinkNode):
             sub_dfa.append_after(self.next.convert(current_error_handlers), chain_actions=self.finish_actions)
         elif self.finish_actions:
             # Nothing follows inside this block, but actions do (adopted from after the enclosing block). The skip path -- the
-            # start state, which has no incoming transition yet -- has nothing to carry them, so give the optional an explicit end.
-            end_dfa = DFA()
-            end_start, end_state = DFState(), DFState()
-            end_dfa.add(end_start)
-            end_dfa.add(end_state)
-            end_dfa.mark_accepting(end_state)
-            end_start.transition(DFTransition([DFTransition.Else], fallthrough=True).to(end_state).handles_else())
-            # (the other accepting states keep the usual treatment, including the refusal to schedule timing-strict actions
-            # after something that can still continue)
-            self_start = sub_dfa.starting_state
-            sub_dfa.chain_actions_into(self.finish_actions, [x for x in sub_dfa.accepting_states if x is not self_start])
-            sub_dfa.append_after(end_dfa, sub_states=[self_start], chain_actions=self.finish_actions)
+            # start state, which has no incoming transition yet -- has nothing to carry them: chain_actions_at_end gives it an explicit end.
+            sub_dfa.chain_actions_at_end(self.finish_actions)
 
         return sub_dfa
 
